@@ -127,7 +127,7 @@ PROPS = {
         "shrink": [("threads", 2), ("pool", 1), ("pool", 2), ("big", 0), ("cores", 2), ("sim_faults", 0), ("p_spurious_ppm", 0), ("p_eagain_ppm", 0)],
         "expected_probes": ["solver_runs", "solver_line_search", "solver_other", "loss_runs", "dataset_runs", "dataset_pool_shared_by_submitters", "model_runs",
                             "model_linear", "model_gboost", "evaluate_with_several_batches_and_small_inner_batch", "fit_runs", "fit_linear", "fit_gboost",
-                            "rt_mutex_contended", "rt_futex_blocked"],
+                            "solver_shared_before_any_serial_call", "rt_mutex_contended", "rt_futex_blocked"],
         "real": REAL_COMMON + ["solver_t::minimize of every deterministic solver id with the registered line-search objects, every loss, dataset_t + generators + iterators, "
                                "linear_t / gboost_model_t fit, predict, evaluate, ml::tune, weak learners"],
         "stub": STUB_COMMON + ["the functions minimised in scenario 0 (harness quadratics / piecewise-linear / Rosenbrock-like functions that yield inside do_vgrad)"],
@@ -144,7 +144,8 @@ PROPS = {
         "rule": ("one run = one seeded dataset (1-200 samples, 1-10 mixed features with missing values, regression / single-label / multi-label / structured "
                  "targets), one loss of the matching family, one objective (linear with l1,l2 in {0} u [1e-6,1e6] and one of 4 scaling modes; gradient-boosting "
                  "bias, scale with random clusters incl. unassigned samples, per-sample gradients) and one parameter vector, evaluated under 3-5 configurations "
-                 "(simulated cores 1-16, dataset pool 1-16, batch 1-10000, cached or uncached inputs/targets) under one seeded schedule with a loss that yields "
+                 "(simulated cores 1-16, dataset pool 1-16, batch 1-10000, cached or uncached inputs/targets, and a history of 0-4 earlier calls on the same "
+                 "function object - with or without gradient, at other points) under one seeded schedule with a loss that yields "
                  "inside every call; evaluations = configurations evaluated; every value and gradient is compared (1e-9 relative) with the per-sample definition "
                  "computed from the direct dataset views, and configurations pairwise; non-trivial = at least 2 simulated threads and 1 context switch; distinct = "
                  "distinct trace hash"),
@@ -158,8 +159,8 @@ PROPS = {
         ],
         "gate": {"quick": 60, "thorough": 500},
         "shrink": [("configs", 2), ("max_samples", 10), ("cores", 2), ("sim_faults", 0), ("p_spurious_ppm", 0), ("p_eagain_ppm", 0)],
-        "expected_probes": ["configurations", "configurations_through_the_pool", "configurations_cached", "mode_linear", "mode_bias", "mode_scale", "mode_grads",
-                            "rt_futex_blocked", "rt_mutex_contended"],
+        "expected_probes": ["configurations", "configurations_through_the_pool", "configurations_cached", "configurations_after_earlier_calls", "mode_linear",
+                            "mode_bias", "mode_scale", "mode_grads", "rt_futex_blocked", "rt_mutex_contended"],
         "real": REAL_COMMON + ["linear::function_t, gboost::{bias,scale,grads}_function_t, flatten/targets iterators with caches, pool_t::map partitioning, sum_reduce, "
                                "every registered loss (behind a yielding wrapper)"],
         "stub": STUB_COMMON,
@@ -204,7 +205,10 @@ PROPS = {
         "rule": ("one run = one complete fit() of a linear (4 regularisers, 4 scaling modes) or gradient-boosting model (random weak-learner pools, shrinkage "
                  "off/global/local, 6 subsampling modes, gboost/tboost scaling, max_rounds 10-18, patience 1-4, epsilon 1e-8..1e-2) on a seeded dataset with a loss "
                  "of the matching family, both tuners, k-fold / random splitters with 2-5 folds, executed under the run's simulated core count (1-16), dataset pool "
-                 "(1-16) and seeded schedule; afterwards every (trial, fold) and the final statistics are recomputed by predicting with the stored models; "
+                 "(1-16) and seeded schedule; afterwards every (trial, fold) and the final statistics are recomputed by predicting with the stored models; fit samples are all samples, "
+                 "a subset, or either in shuffled order; for 35 % of the boosting fits the same fit is repeated on one core with max_rounds and with "
+                 "max_rounds + patience + k, and the statement's monitor replayed on the longer per-round history (cut at the shorter budget) names the round "
+                 "the shorter fit must keep; "
                  "non-trivial = at least 2 simulated threads and 1 context switch; distinct = distinct trace hash"),
         "batches": [
             {"name": "plain", "cfg": "plain", "tiers": ["quick", "thorough"], "runs": {"quick": 16000, "thorough": 800000},
@@ -217,7 +221,8 @@ PROPS = {
         "gate": {"quick": 44, "thorough": 300},
         "shrink": [("folds", 2), ("pool", 1), ("cores", 2), ("max_samples", 24), ("sim_faults", 0), ("p_spurious_ppm", 0), ("p_eagain_ppm", 0)],
         "expected_probes": ["linear_fits", "gboost_fits", "fits_with_several_trials", "fold_statistics_recomputed", "fold_models_with_boosting_rounds",
-                            "fold_models_stopped_early", "rt_futex_blocked", "rt_mutex_contended"],
+                            "fold_models_stopped_early", "fit_samples_in_arbitrary_order", "longer_history_differentials",
+                            "longer_history_reaches_the_shorter_budget", "rt_futex_blocked", "rt_mutex_contended"],
         "real": REAL_COMMON + ["linear_t::fit / gboost_model_t::fit end to end: ml::tune and its pool, tuners, splitters, solvers, early stopping, gboost::result_t, "
                                "weak learner fit / merge / scale, ml::result_t store / statistics"],
         "stub": STUB_COMMON,
